@@ -99,6 +99,7 @@ Definition OCtab (c : ocid) : ochecker :=
   | 1%N => mkOc (fun o => o mod 2) (fun o st => Z.eqb (o mod 2) st) (fun o => o mod 2)
   (* a tolerance checker (not an equivalence): the stamp is the output, consistent while the output stays within 400 (mod 1000) *)
   | 3%N => mkOc (fun o => o) (fun o st => Z.leb (Z.abs (o mod 1000 - st mod 1000)) 400) (fun o => o)
+  | 4%N => mkOc (fun o => o) (fun o st => Z.leb (Z.abs (o mod 1000 - st mod 1000)) 100) (fun o => o)
   | _ => mkOc (fun _ => 0) (fun _ _ => true) (fun _ => 0)
   end.
 Definition OC_ALWAYS : ocid := 2%N.
